@@ -126,6 +126,10 @@ def k21_match_overrides(ctx, pid: str):
             if not found:
                 return [("K21.match-override", name, o.kind == "raise" and _is_exc(p, o.value, "moclo.errors.InvalidSequence"),
                          "no structure match must surface as the search's InvalidSequence, got %r" % (o,))]
+            for e in o.path.effects:
+                if e[0] == "text-search" and not e[2]:
+                    ctx.report.ob("K21.case-sensitive-search", "%s#%s" % (name, e[1]), False,
+                                  "the matched text is searched with str.%s without case normalisation: a lower-case spelling of the same record is screened differently" % e[1], fi.where())
             screened = [t for t, v in o.path.choices if t.startswith("arith len(fragments")]
             if o.kind == "raise":
                 ok = bool(screened) and _is_exc(p, o.value, "moclo.errors.InvalidSequence")
@@ -138,6 +142,58 @@ def k21_match_overrides(ctx, pid: str):
         pre = [t for t in []]
         emit(ctx, run_paths(ctx, fi, make_args, match_facts(), hooks=hooks, post=post), fi.where())
     r.floor("K21.match-override", 4)
+
+
+def text_consumers_rule(ctx, rule: str):
+    """DNARegex.search: the text derived from the target is consumed only by
+    the compiled pattern (regex.match), len(), doubling and slicing.  Any other
+    inspection of it (str.find / in / count / startswith ... used as a
+    shortcut) has its own idea of letter case and of IUPAC codes."""
+    p = ctx.program
+    r = ctx.report
+    fi = p.get_func("moclo.regex.DNARegex.search")
+    fn = fi.node
+    # names holding the text: assigned from str(<target>...) and what is derived from them
+    text = set()
+    changed = True
+    while changed:
+        changed = False
+        for n in ast.walk(fn):
+            if isinstance(n, (ast.Assign, ast.AugAssign)):
+                tg = n.targets if isinstance(n, ast.Assign) else [n.target]
+                val = n.value
+                src = fi.module.segment(val) or ""
+                is_text = (isinstance(val, ast.Call) and isinstance(val.func, ast.Name) and val.func.id == "str") or any(
+                    isinstance(x, ast.Name) and x.id in text for x in ast.walk(val)) and not isinstance(val, ast.Call)
+                if isinstance(val, ast.Call) and isinstance(val.func, ast.Attribute) and isinstance(val.func.value, ast.Name) and val.func.value.id in text and val.func.attr in ("upper", "lower"):
+                    is_text = True
+                for t in tg:
+                    if isinstance(t, ast.Name) and is_text and t.id not in text:
+                        text.add(t.id)
+                        changed = True
+    if not text:
+        raise AnalysisError("%s: cannot find the text derived from the target" % fi.where())
+    parents = {}
+    for node in ast.walk(fn):
+        for ch in ast.iter_child_nodes(node):
+            parents[id(ch)] = node
+    n_uses = 0
+    for n in ast.walk(fn):
+        if isinstance(n, ast.Name) and n.id in text and isinstance(n.ctx, ast.Load):
+            par = parents.get(id(n))
+            ok = False
+            if isinstance(par, ast.Call) and n in par.args:
+                f = par.func
+                ok = (isinstance(f, ast.Attribute) and f.attr in ("match", "fullmatch") ) or (isinstance(f, ast.Name) and f.id in ("len", "str"))
+            elif isinstance(par, (ast.BinOp, ast.AugAssign, ast.Subscript, ast.Assign)):
+                ok = True
+            elif isinstance(par, ast.Attribute) and par.attr in ("upper", "lower"):
+                ok = True
+            n_uses += 1
+            r.ob(rule, "%s#%s@%s" % (fi.qualname, n.id, re.sub(r"\W+", "", fi.module.segment(par) or "")[:50]), ok,
+                 "the searched text is inspected outside the compiled pattern: `%s` (a shortcut on the raw text has its own letter-case and IUPAC semantics)"
+                 % re.sub(r"\s+", " ", fi.module.segment(par) or "")[:100], "%s:%d" % (fi.module.relpath, n.lineno))
+    r.floor(rule, 1)
 
 
 # ---------------------------------------------------------------------------
